@@ -299,6 +299,18 @@ int main(int argc, char** argv) {
         if (std::string(argv[i]) == "--asan-pass") asan = true;
     const int K = verif::fft_cache_capacity();
     const bool T = ctx.thorough();
+    // the capacity the library was CONFIGURED with (DSPLIB_FFT_CACHE_SIZE of this build, handed over by the driver): the caches must
+    // hold exactly that many plans - a library that quietly enlarges a small configured size keeps more plans than it was told to
+    int configured = -1;
+    for (int i = 1; i + 1 < argc; ++i)
+        if (std::string(argv[i]) == "--configured-k") configured = atoi(argv[i + 1]);
+    if (configured > 0 && ctx.take("capacity", P().kv("configured", configured))) {
+        ++ctx.evaluations;
+        ++ctx.checks["capacity"].evals;
+        ctx.nontrivial();
+        if (K != configured)
+            ctx.fail("capacity", fmt("the plan caches hold %d plans per thread", K), fmt("%d, the configured cache size of this build", configured), P().kv("configured", configured).kv("actual", K));
+    }
 
     std::vector<Alphabet> alphs = {
         {"A", {{FFT_C, 16}, {FFT_C, 12}, {FFT_C, 7}, {FFT_C, 60}, {FFT_C, 53}, {FFT_C, 9}}},
